@@ -9,7 +9,10 @@
      DReserve   first transaction of Store.StoreSector (slot reserved, or "exists", or full)
      DWrite     the StoreFunc: data written + cached + volume marked changed, or failure + the
                 rollback transaction
-     DSync      VolumeManager.Sync (fsync of the changed volumes)
+     DSync      VolumeManager.Sync as one step (fsync of the changed volumes), and its pieces
+                DSyncBegin (snapshot of the changed volumes) / DFsync (fsync of one of them, may
+                fail) / DClear (its changed flag is deleted — only after a successful fsync) /
+                DSyncEnd, so that several Syncs and writers interleave
      DRead      VolumeManager.ReadSector (cache, else location + file read + cache add)
      DMigrate   Store.MigrateSectors with migrateSector as callback (per sector: read, verify
                 root, write, fsync of the target volume, swap — one transaction)
@@ -27,9 +30,11 @@
    The cache maps root -> content: the real cache stores the callers' pointers, and the RHP2/RHP3
    update-sector handlers (as patched by fixes/C02-update-sector-copy.patch) never modify a
    buffer they obtained from ReadSector or handed to Write.
-   PruneSectors spares sectors accessed after its cutoff; in-flight writers touched their
-   sector when they reserved the slot, so DPrune spares their sectors (assumption: a write
-   takes less than the prune interval).  No proofs here. *)
+   Last access: [fresh] holds the roots whose stored_sectors.last_access_timestamp was refreshed
+   (StoreSector's upsert — also on the "exists" path —, SectorLocation, RemoveSector) since the
+   last DAge ("more than a prune interval passes").  DPrune is PruneSectors with a cutoff between
+   that moment and now: it spares referenced and fresh sectors, and the sectors of in-flight
+   writers (assumption: a write takes less than the prune interval).  No proofs here. *)
 From HostdBase Require Import Base.
 From HostdStorage Require Import Model.
 
@@ -61,22 +66,29 @@ Record dstate := {
   pend : kmap;                      (* written, not yet fsynced *)
   changed : list N;                 (* VolumeManager.changedVolumes *)
   cache : cmap; csize : N;
-  thr : list (N * (N * N * N))      (* writers between slot commit and data write: t -> (root, vol, idx) *)
+  thr : list (N * (N * N * N));     (* writers between slot commit and data write: t -> (root, vol, idx) *)
+  fresh : list N;                   (* roots accessed since the last DAge *)
+  syn : list (N * (list N * option N))  (* running Syncs: t -> (volumes still to do, volume fsynced whose flag is not cleared yet) *)
 }.
 
 Definition dinit (size : N) : dstate :=
-  {| md := init; disk := []; pend := []; changed := []; cache := []; csize := size; thr := [] |}.
+  {| md := init; disk := []; pend := []; changed := []; cache := []; csize := size; thr := []; fresh := []; syn := [] |}.
 
 Definition with_md (d : dstate) (m : state) : dstate :=
-  {| md := m; disk := disk d; pend := pend d; changed := changed d; cache := cache d; csize := csize d; thr := thr d |}.
+  {| md := m; disk := disk d; pend := pend d; changed := changed d; cache := cache d; csize := csize d; thr := thr d; fresh := fresh d; syn := syn d |}.
 Definition with_files (d : dstate) (dk pd : kmap) : dstate :=
-  {| md := md d; disk := dk; pend := pd; changed := changed d; cache := cache d; csize := csize d; thr := thr d |}.
+  {| md := md d; disk := dk; pend := pd; changed := changed d; cache := cache d; csize := csize d; thr := thr d; fresh := fresh d; syn := syn d |}.
 Definition with_changed (d : dstate) (c : list N) : dstate :=
-  {| md := md d; disk := disk d; pend := pend d; changed := c; cache := cache d; csize := csize d; thr := thr d |}.
+  {| md := md d; disk := disk d; pend := pend d; changed := c; cache := cache d; csize := csize d; thr := thr d; fresh := fresh d; syn := syn d |}.
 Definition with_cache (d : dstate) (c : cmap) : dstate :=
-  {| md := md d; disk := disk d; pend := pend d; changed := changed d; cache := c; csize := csize d; thr := thr d |}.
+  {| md := md d; disk := disk d; pend := pend d; changed := changed d; cache := c; csize := csize d; thr := thr d; fresh := fresh d; syn := syn d |}.
+Definition with_fresh (d : dstate) (f : list N) : dstate :=
+  {| md := md d; disk := disk d; pend := pend d; changed := changed d; cache := cache d; csize := csize d; thr := thr d; fresh := f; syn := syn d |}.
+Definition with_syn (d : dstate) (y : list (N * (list N * option N))) : dstate :=
+  {| md := md d; disk := disk d; pend := pend d; changed := changed d; cache := cache d; csize := csize d; thr := thr d; fresh := fresh d; syn := y |}.
+Definition touch (r : N) (d : dstate) : dstate := if mem r (fresh d) then d else with_fresh d (r :: fresh d).
 Definition with_thr (d : dstate) (t : list (N * (N * N * N))) : dstate :=
-  {| md := md d; disk := disk d; pend := pend d; changed := changed d; cache := cache d; csize := csize d; thr := t |}.
+  {| md := md d; disk := disk d; pend := pend d; changed := changed d; cache := cache d; csize := csize d; thr := t; fresh := fresh d; syn := syn d |}.
 
 (* what a read of slot (v, i) returns *)
 Definition content (d : dstate) (v i : N) : N :=
@@ -111,6 +123,8 @@ Inductive dop :=
 | DReserve (t r : N) (loc : option (N * N))
 | DWrite (t : N) (ok : bool)
 | DSync
+| DSyncBegin (t : N) | DFsync (t v : N) (ok : bool) | DClear (t : N) | DSyncEnd (t : N)
+| DAge                                              (* more than a prune interval passes *)
 | DRead (r : N) (fail : bool)                        (* fail: injected I/O error of the file read *)
 | DMigrate (v start : N) (calls : list (N * (N * N) * N))
     (* per migrateSector call: from index, target, outcome 0 ok | 1 read failed | 2 root mismatch | 3 write failed *)
@@ -140,9 +154,9 @@ Definition dreserve (t r : N) (loc : option (N * N)) (d : dstate) : dstate * dob
   | Some _ => (d, ODBad)
   | None =>
       match reserve r loc (md d) with
-      | RExists => (with_md d (add_known r (md d)), OAck)
+      | RExists => (touch r (with_md d (add_known r (md d))), OAck)
       | RFull => (d, OM (ORes (Err ENotEnoughStorage)))
-      | RPlaced s1 v i => (with_thr (with_md d s1) ((t, (r, v, i)) :: thr d), OPlaced)
+      | RPlaced s1 v i => (touch r (with_thr (with_md d s1) ((t, (r, v, i)) :: thr d)), OPlaced)
       | RFail o => (d, OM o)
       | RBad => (d, ODBad)
       end
@@ -172,8 +186,8 @@ Definition dread (r : N) (fail : bool) (d : dstate) : dstate * dobs :=
       match locate r (md d) with
       | None => (d, OReadErr)
       | Some (v, i) =>
-          if fail then (d, OReadErr)
-          else let c := content d v i in (with_cache d (cadd (csize d) r c (cache d)), ORead false c)
+          if fail then (touch r d, OReadErr)
+          else let c := content d v i in (touch r (with_cache d (cadd (csize d) r c (cache d))), ORead false c)
       end
   end.
 
@@ -234,7 +248,7 @@ Definition dremove_sector (r : N) (d : dstate) : dstate * dobs :=
   | Some (v, i) =>
       match remove_sector r (md d) with
       | Ok m =>
-          (with_cache (sync_vol v (with_files (with_md d m) (disk d) (kset v i 0%N (pend d)))) (cdel r (cache d)),
+          (touch r (with_cache (sync_vol v (with_files (with_md d m) (disk d) (kset v i 0%N (pend d)))) (cdel r (cache d))),
            OM (ORes (Ok tt)))
       | Err e => (d, OM (ORes (Err e)))
       | Panic => (d, OM (ORes Panic))
@@ -242,10 +256,49 @@ Definition dremove_sector (r : N) (d : dstate) : dstate * dobs :=
   end.
 
 Definition dprune (d : dstate) : dstate * dobs :=
-  dres d (prune_with (fun r => refd (md d) r || in_flight r (thr d)) (md d)).
+  dres d (prune_with (fun r => refd (md d) r || mem r (fresh d) || in_flight r (thr d)) (md d)).
 
 Definition dcrash (d : dstate) : dstate :=
-  {| md := md d; disk := disk d; pend := []; changed := []; cache := []; csize := csize d; thr := [] |}.
+  {| md := md d; disk := disk d; pend := []; changed := []; cache := []; csize := csize d; thr := [];
+     fresh := fresh d; syn := [] |}.
+
+(* the pieces of VolumeManager.Sync *)
+Fixpoint ldel (v : N) (l : list N) : list N :=
+  match l with [] => [] | x :: t => if (v =? x)%N then ldel v t else x :: ldel v t end.
+
+Definition dsync_begin (t : N) (d : dstate) : dstate * dobs :=
+  match alookup t (syn d) with
+  | Some _ => (d, ODBad)
+  | None => (with_syn d ((t, (changed d, None)) :: syn d), OM (ORes (Ok tt)))
+  end.
+
+(* vol.Sync() of one of the volumes of the snapshot; an error ends the Sync (the flags stay) *)
+Definition dfsync (t v : N) (ok : bool) (d : dstate) : dstate * dobs :=
+  match alookup t (syn d) with
+  | Some (todo, None) =>
+      if mem v todo && is_some (vget v (vols (md d))) then
+        if ok then (with_syn (sync_vol v d) ((t, (todo, Some v)) :: aremove t (syn d)), OM (ORes (Ok tt)))
+        else (with_syn d (aremove t (syn d)), OM (ORes (Err EOther)))
+      else (d, ODBad)
+  | _ => (d, ODBad)
+  end.
+
+(* delete(vm.changedVolumes, id): only reached after the fsync of that volume succeeded *)
+Definition dclear (t : N) (d : dstate) : dstate * dobs :=
+  match alookup t (syn d) with
+  | Some (todo, Some v) =>
+      (with_syn (with_changed d (ldel v (changed d))) ((t, (ldel v todo, None)) :: aremove t (syn d)), OM (ORes (Ok tt)))
+  | _ => (d, ODBad)
+  end.
+
+(* Sync returns nil: every volume of the snapshot was fsynced (volumes that are gone are skipped) *)
+Definition dsync_end (t : N) (d : dstate) : dstate * dobs :=
+  match alookup t (syn d) with
+  | Some (todo, None) =>
+      if existsb (fun v => is_some (vget v (vols (md d)))) todo then (d, ODBad)
+      else (with_syn d (aremove t (syn d)), OM (ORes (Ok tt)))
+  | _ => (d, ODBad)
+  end.
 
 Definition dstep (d : dstate) (o : dop) : dstate * dobs :=
   match o with
@@ -253,6 +306,11 @@ Definition dstep (d : dstate) (o : dop) : dstate * dobs :=
   | DReserve t r loc => dreserve t r loc d
   | DWrite t ok => dwrite t ok d
   | DSync => (dsync d, OM (ORes (Ok tt)))
+  | DSyncBegin t => dsync_begin t d
+  | DFsync t v ok => dfsync t v ok d
+  | DClear t => dclear t d
+  | DSyncEnd t => dsync_end t d
+  | DAge => (with_fresh d [], OM (ORes (Ok tt)))
   | DRead r fail => dread r fail d
   | DMigrate v start calls => dmigrate (S (length (slots_of v (md d)))) v start start calls 0 0 d
   | DShrinkT v n => dshrink v n d
@@ -261,7 +319,7 @@ Definition dstep (d : dstate) (o : dop) : dstate * dobs :=
   | DPrune => dprune d
   | DResizeCache n =>
       ({| md := md d; disk := disk d; pend := pend d; changed := changed d;
-          cache := firstn (N.to_nat n) (cache d); csize := n; thr := thr d |}, OM (ORes (Ok tt)))
+          cache := firstn (N.to_nat n) (cache d); csize := n; thr := thr d; fresh := fresh d; syn := syn d |}, OM (ORes (Ok tt)))
   | DCrash => (dcrash d, OM (ORes (Ok tt)))
   | DRestart =>
       match thr d with
